@@ -70,7 +70,7 @@ func c24Run(t *testing.T, cj []byte, res *vfResult) {
 			if cand == nil {
 				log = append(log, "nil")
 			} else {
-				log = append(log, fmt.Sprintf("%s:%d", cand.Address, cand.Port))
+				log = append(log, cand.Address) // one host candidate per interface; ports are vnet-random
 			}
 			mu.Unlock()
 		}
@@ -111,7 +111,7 @@ func c24Run(t *testing.T, cj []byte, res *vfResult) {
 		trace = append(trace, s.Trace...)
 		preempts = s.Preempts
 		vfSettle(0)
-		s.Stop()
+		s.StopIf(outcome == "done")
 		vfSettle(100 * time.Millisecond)
 		if p != nil && c.Reneg && taskErr == "" && p.pc.ICEGatheringState() == ICEGatheringStateComplete {
 			// a later SetLocalDescription (same ICE generation) must not report end-of-gathering again
@@ -142,7 +142,7 @@ func c24Run(t *testing.T, cj []byte, res *vfResult) {
 				cands, err := p.pc.iceGatherer.GetLocalCandidates()
 				if err == nil {
 					for _, cd := range cands {
-						gathered = append(gathered, fmt.Sprintf("%s:%d", cd.Address, cd.Port))
+						gathered = append(gathered, cd.Address)
 					}
 				}
 			} else {
@@ -250,7 +250,7 @@ func c24Run(t *testing.T, cj []byte, res *vfResult) {
 
 func init() {
 	vfRegister(&vfProp{
-		ID: "C24", Level: "exploration", ReplayClass: "exact",
+		ID: "C24", Level: "exploration", ReplayClass: "decision-exact", // the ice.Agent runs free between gatherer sites: ~1 in 1500 runs diverges
 		Rule: "case = one real PeerConnection with 1-3 local interfaces (host candidates), candidate pool size 0 or 1, handler registered early or late; CreateOffer+SetLocalDescription run as a task while the real ice.Agent's notifier goroutine is adopted as a task at its first site; the seeded cooperative scheduler picks who runs at every lock/atomic site of icegatherer.go; non-trivial = >=1 preemption, distinct = hash of (emitted sequence, schedule)",
 		Real: []string{"PeerConnection, ICEGatherer (instrumented)", "pion/ice Agent gathering host candidates (unmodified, free-running between gatherer sites)", "vnet"},
 		Stub: []string{"network: vnet with static IPs, no remote peer"},
